@@ -47,7 +47,7 @@ def run(ctx):
     for h in corpus():
         sysrun.run(ctx, [0], 0, MONITORS, replay_history=h)
         ctx.count('corpus_histories')
-    sysrun.run(ctx, seeds, 16, MONITORS, mode=['queue', 'queue', 'skip', 'skip', 'skip', 'queue', 'queue', 'skip', 'skip'])   # 9: every family (seed % 8) meets both modes
+    sysrun.run(ctx, seeds, 16, MONITORS, mode=['queue', 'queue', 'skip', 'skip', 'skip', 'queue', 'queue', 'skip', 'skip'], qm_mod=4)   # 9: every family (seed % 8) meets both modes
 
 
 def replay(ctx, data):
